@@ -257,8 +257,11 @@ def run(ctx):
                 continue
             msg = sqlcases.compare(cc, m.get("rows", []), err)
             if msg:
+                key = None
+                if mode.startswith("prepare-") and err and err.startswith("prepare: plan: Optimizer rule"):
+                    key = "prepare-optimizes-unanalyzed-plan"
                 report_violation(ctx, {"case": c, "mode": mode, "engine": m, "literal_execution": lit, "reference": rf,
-                                       "oracle": f"{mode}: {msg} (the same query with the values written as literals satisfies the reference)"})
+                                       "oracle": f"{mode}: {msg} (the same query with the values written as literals satisfies the reference)"}, key=key)
             else:
                 stats[f"ok:{mode}"] += 1
         if not rf["expect"]["err"] and rf["expect"]["rows"]:
